@@ -51,6 +51,10 @@ func (i Inconclusive) Error() string { return "INCONCLUSIVE: " + i.Msg }
 
 func inconclusive(format string, a ...interface{}) { panic(Inconclusive{fmt.Sprintf(format, a...)}) }
 
+// running is the World of the case being executed (for clean-up when a case
+// is abandoned by an Inconclusive panic during shrinking).
+var running *World
+
 // Limits that may be tightened by tests.
 var (
 	SyncTimeout = 30 * time.Second
@@ -1535,6 +1539,7 @@ func Run(c *Case) (w *World) {
 		}
 		panic(fmt.Sprintf("setting up the case: %v", err))
 	}
+	running = w
 	var polled []Ev
 	synced := true
 	for i, s := range c.Steps {
